@@ -119,6 +119,26 @@ func dev(args []string) {
 		}
 		cfg.Extra = append(cfg.Extra, eng.ExtraPkg{Dir: *repo + "/validate", Pattern: "github.com/ogen-go/ogen/validate", Mirror: "/verif/contracts/validate"})
 	}
+	if *family == "params" {
+		os.MkdirAll(*scratch, 0o755)
+		var sets []eng.ParamSet
+		for _, q := range eng.ParamFamily() {
+			if *setsFlag == "" || strings.Contains(","+*setsFlag+",", ","+q.ID+",") {
+				sets = append(sets, q)
+			}
+		}
+		mod, err := eng.GenerateParamFamily(*repo, sets, *scratch)
+		if err != nil {
+			fmt.Fprintln(os.Stderr, "family:", err)
+			os.Exit(2)
+		}
+		cfg.ModDir = mod
+		cfg.Pkgs = nil
+		for _, q := range sets {
+			cfg.Extra = append(cfg.Extra, eng.ExtraPkg{Dir: mod + "/" + q.ID, Pattern: "./" + q.ID})
+		}
+		cfg.Extra = append(cfg.Extra, eng.ExtraPkg{Dir: *repo + "/uri", Pattern: "github.com/ogen-go/ogen/uri", Mirror: "/verif/contracts/uri"})
+	}
 	if *family == "security" {
 		os.MkdirAll(*scratch, 0o755)
 		var sets []eng.SecuritySet
